@@ -86,9 +86,15 @@ def run_cli(shard, ctx):
     scratch = Path(os.environ.get("VERIF_SHARD_SCRATCH", "."))
     for i in range(shard["n"]):
         rng = rng_for(shard["seed"], "c01cli", shard["index"], i)
-        mode = i % 3
+        mode = i % 4
         d = scratch / f"c{i}"
-        if mode == 0:
+        if mode == 3:
+            # two haplotypes, neither of them "Primary": one output file per haplotype (named after the lower-cased key)
+            cr = cli_runs.text_case(rng, d, fmt="agp", tagged=True, two_hap=True, unprefixed=rng.random() < 0.5, primary=False)
+            if "tag:name-spelled-haplotype-seen-before-its-tag" in cr["labels"]:
+                ctx.count("cli:name-spelled-haplotype-seen-before-its-tag")
+            fmt = rng.choice(["agp", "tpf"])
+        elif mode == 0:
             cr = cli_runs.fasta_case(rng, d, tagged=rng.random() < 0.5)
             fmt = rng.choice(["fa", "agp"])
         elif mode == 1:
@@ -129,7 +135,7 @@ def plan(tier, seed):
     for k in range(n):
         kinds = [["pv", "hostile"], ["hostile"], ["tag", "tag2", "hostile"], ["pv", "tag"]][k % 4]
         sh.append({"kind": "mem", "kinds": kinds, "n": per})
-    nc, perc = (8, 30) if tier == "quick" else (16, 130)
+    nc, perc = (8, 40) if tier == "quick" else (16, 160)
     sh += [{"kind": "cli", "n": perc} for _ in range(nc)]
     return sh
 
@@ -142,6 +148,7 @@ def gates(c, tier):
         "partition-ok:tag2": 100,
         "partition-ok:cli-files": 20,
         "cli:primary-mode-with-several-other-assemblies": 3,
+        "cli:name-spelled-haplotype-seen-before-its-tag": 3,
         "out:multi-assembly": 100,
         "out:with-cuts": 300,
         "label:in:both-strands": 500,
